@@ -168,4 +168,23 @@ example : wfRun [.dispatch, .store] exLog { state := 10 } exOps = true := by dec
 example : (srun [.dispatch, .store] { state := 10 } exOps).2 =
     [.dispatch [1, 2], .store 13, .dispatch [3, 4], .store 15] := by decide
 
+/-! ### The whole manager model on the D12 history -/
+
+/-- The regenerated orders with the pre-repair too-long branches (persist, set, then report). -/
+def preRepairTooLong : Orders :=
+  { orders with diffTooLong := [.storePts, .boxSetPts, .tooLongCb, .recurse],
+                chDiffTooLong := [.storeChannelPts, .boxSetPts, .tooLongCb] }
+
+/-- Stored pts 10; `msg 1 @11` happens offline; the next difference answers `differenceTooLong`. -/
+def tooLongHistory (O : Orders) : List Event :=
+  ((Mgr.start O { log := [⟨1, .msg, 0, 11, 1⟩], p0 := 10, q0 := 0, c0 := [] } 10 0 []).runActions O
+    [.emit 1, .tlNext, .tooLong]).trace
+
+/-- Manager model, pre-repair order: `SetPts(11)` is in the trace before the callback. -/
+theorem C03_counterexample_tooLong :
+    tooLongHistory preRepairTooLong = [.apiDiff 10 0, .apiDiff 10 0, .storePts 11, .tooLong, .apiDiff 11 0] := by decide
+
+/-- With the regenerated (repaired) order the callback comes first. -/
+example : tooLongHistory orders = [.apiDiff 10 0, .apiDiff 10 0, .tooLong, .storePts 11, .apiDiff 11 0] := by decide
+
 end TdModel.C03
